@@ -6,7 +6,11 @@ A case is a list of steps on one object, each a public mutator call or a reader 
   triple    [prefix history with readers sprinkled] + readers + ONE aimed mutator call + readers: every public
             mutator (every entry point of `impl.apply_op`, both classes) in the middle position, aimed at a
             returning instance, a raising one, and one that raises after a nested decorated call has returned, with every reader on both sides (all of them, or one chosen pair);
-  history   long random histories (`harness/histories.py`) with readers sprinkled between the mutators.
+  history   long random histories (`harness/histories.py`) with readers sprinkled between the mutators;
+  constructed  a step `['c', route]` replaces the live object by the same graph built through a public constructor
+            (`reconstruct`), followed by readers with no mutator in between: a constructor that leaves a memoised
+            attribute filled shows here.  The model sees no event (same state, and its answers do not depend on what
+            is memoised).
 
 Every reader answer on the live object is compared
   (a) with the same reader on a freshly reconstructed, never queried copy `from_dict(to_dict(g), validate=False)` of
@@ -62,6 +66,49 @@ def occupancy(g):
 
 def fresh_copy(g):
     return type(g).from_dict(g.to_dict(), validate=False)
+
+
+ROUTES = ['dict', 'copy', 'matrix', 'nx', 'gml', 'skeleton', 'numpy_by_lag', 'from_causal_graph']
+
+
+def reconstruct(g, route):
+    """the same graph built through a public constructor (validation on, the default), or None when the route cannot
+    carry this graph (other edge types, mangled labels, non-minimal graph, ...): the result is accepted only when it has
+    the class, node names and typed edges of `g`.  Attributes may be lost; no C04 answer the model gives depends on them."""
+    from cai_causal_graph import CausalGraph, Skeleton, TimeSeriesCausalGraph
+    C = type(g)
+    src = fresh_copy(g)
+    try:
+        if route == 'dict':
+            h = C.from_dict(src.to_dict())
+        elif route == 'copy':
+            h = src.copy()
+        elif route == 'matrix':
+            h = C.from_adjacency_matrix(*src.to_numpy())
+        elif route == 'nx':
+            h = C.from_networkx(src.to_networkx())
+        elif route == 'gml':
+            h = C.from_gml_string(src.to_gml_string())
+        elif route == 'skeleton':
+            h = C.from_skeleton(src.skeleton)
+        elif route == 'numpy_by_lag':
+            h = C.from_adjacency_matrices(*src.to_numpy_by_lag())
+        elif route == 'from_causal_graph':
+            h = TimeSeriesCausalGraph.from_causal_graph(CausalGraph.from_dict(src.to_dict()))
+        else:
+            return None
+        if type(h) is not C or h.get_node_names() != g.get_node_names() or _unoriented(h) != _unoriented(g):
+            return None
+        return h
+    except RecursionError:
+        raise
+    except Exception:  # noqa: BLE001 -- a route that refuses this graph
+        return None
+
+
+def _unoriented(g):
+    """typed edges, a symmetric type regardless of its stored orientation (the matrix routes store a -- b sorted)"""
+    return sorted((min(s, d), max(s, d), t) if t in ('--', '<>', 'oo') else (s, d, t) for s, d, t in _edges_of(g))
 
 
 def _rows(m):
@@ -444,6 +491,45 @@ def history_case(rng, cls, length):
     return {'cls': cls, 'gmeta': dict(rng.choice(histories.METAS)), 'steps': steps, 'family': 'history'}
 
 
+def constructed_case(rng, cls):
+    """a graph that reaches the reader straight out of a public constructor: [edges of a restricted palette] + construct
+    + readers with NO mutator in between (a constructor that leaves a memoised attribute filled shows here and nowhere
+    else) + sometimes one mutator and the readers again"""
+    gen = histories.Gen(rng, cls)
+    palette = rng.choice([['->'], ['--'], ['->', '--'], ['->', '--'], ['->', '--', '--'], histories.TYPES])
+    steps = []
+    minimal_shape = cls == 'ts' and rng.random() < 0.4          # every edge ends at lag 0: from_adjacency_matrices applies
+    lag0 = [histories.ts_name(v, 0) for v in histories.TS_VARS]
+    past = [histories.ts_name(v, l) for v in histories.TS_VARS[:3] for l in (-2, -1, 0)]
+    for _ in range(rng.randint(1, 7)):
+        a, b = (rng.choice(past), rng.choice(lag0)) if minimal_shape else (rng.choice(gen.pool), rng.choice(gen.pool))
+        op = ['add_edge', a, b, rng.choice(palette), gen.meta() if rng.random() < 0.2 else {}, True]
+        impl.apply_op(gen.g, op)
+        steps.append(['m', op])
+    if rng.random() < 0.5:
+        op = ['add_node', rng.choice(lag0) if minimal_shape else gen.fresh(), 'unspecified', {}]
+        impl.apply_op(gen.g, op)
+        steps.append(['m', op])
+    if rng.random() < 0.3:
+        steps += [['r', x] for x in rng.sample(readers_of(cls), 2)]
+    routes = [r for r in ROUTES if (cls == 'ts' or r not in ('numpy_by_lag', 'from_causal_graph'))
+              and reconstruct(gen.g, r) is not None]
+    rare = [r for r in routes if r not in ('dict', 'copy', 'from_causal_graph')]
+    steps.append(['c', rng.choice(rare if rare and rng.random() < 0.75 else routes) if routes else 'dict'])
+    rs = readers_of(cls)[:]
+    rng.shuffle(rs)
+    steps += [['r', x] for x in (rs if rng.random() < 0.6 else rs[:rng.randint(1, 3)])]
+    route = [x for x in steps if x[0] == 'c'][0][1]
+    h = reconstruct(gen.g, route)
+    if rng.random() < 0.4 and h is not None and _edges_of(h) == _edges_of(gen.g):
+        # (a mutator follows only when the route keeps the stored orientation of every edge: the model keeps its state)
+        op = gen.next_op()
+        steps.append(['m', op])
+        rng.shuffle(rs)
+        steps += [['r', x] for x in rs[:rng.randint(1, len(rs))]]
+    return {'cls': cls, 'gmeta': {}, 'steps': steps, 'family': 'constructed'}
+
+
 class Lane(LaneBase):
     PROP = 'C04'
     THEOREMS = 'auto'
@@ -454,7 +540,9 @@ class Lane(LaneBase):
             'history, with all readers or one chosen reader on each side (is_dag, _is_fully_directed/_undirected, '
             'to_networkx, adjacency_matrix, to_numpy, skeleton views, identifier, get_topological_order, '
             'to_gml_string; ts: variables, is_minimal_graph, is_stationary_graph, max lags, adjacency_matrices); plus '
-            'long random histories with readers sprinkled in. Every answer is compared with a freshly reconstructed '
+            'long random histories with readers sprinkled in; plus graphs that reach the readers straight out of a public '
+            'constructor (from_dict, copy, from_adjacency_matrix, from_networkx, from_gml_string, from_skeleton, '
+            'from_adjacency_matrices, from_causal_graph; validation on) with no mutator in between. Every answer is compared with a freshly reconstructed '
             'never-queried copy (multi-valued answers are validated) and with the Lean cache model, which also '
             'predicts after every call which of the 8 memoised attributes are filled. Non-trivial: some cache was '
             'warm when a mutator changed the graph or raised, and a reader ran afterwards; distinct by (class, '
@@ -495,6 +583,8 @@ class Lane(LaneBase):
                         for want in ('ok', 'raise', 'raise-reset'):
                             for r2 in rs:
                                 yield triple_case(rng, cls, kind, want, [r1], [r2], rng.randint(1, 7))
+        for i in range(400 if quick else 4000):
+            yield constructed_case(rng, 'ts' if i % 2 else 'plain')
         for _ in range(600 if quick else 5000):
             yield history_case(rng, 'ts' if rng.random() < 0.5 else 'plain', rng.randint(8, 30))
 
@@ -522,6 +612,7 @@ class Lane(LaneBase):
         nontrivial = False
         last_mut = None
         warm_at_mut = None
+        constructed = False
         for i, (what, arg) in enumerate(case['steps']):
             if what == 'm':
                 occ_before = occupancy(g)
@@ -539,6 +630,18 @@ class Lane(LaneBase):
                 tags.add(f'{cls}:{arg[0]}:{how}')
                 last_mut = (arg[0], outcome)
                 warm_at_mut = occ_before if ('1' in occ_before and (changed or res != 'ok')) else None
+            elif what == 'c':
+                # the object is replaced by the same graph out of a public constructor; for the model nothing happens
+                # (same state; its answers do not depend on what is memoised -- that is the theorem)
+                h = None if strict else reconstruct(g, arg)
+                if h is None:
+                    tags.add('constructed:route-not-applicable')
+                else:
+                    g = h
+                    constructed = True
+                    tags.add(f'{cls}:constructed:{arg}')
+                    last_mut = ('construct:' + arg, 'ok')
+                    warm_at_mut = None
             else:
                 if (i + len(case['steps'])) % 3 == 0:
                     # read-only look-ups of things that are not there (they touch no memoised attribute, so the model
@@ -563,9 +666,12 @@ class Lane(LaneBase):
                 if warm_at_mut is not None:
                     nontrivial = True
                     keys.append((cls,) + last_mut + (warm_at_mut, arg))
+                elif constructed and last_mut and last_mut[0].startswith('construct:'):
+                    nontrivial = True
+                    keys.append((cls,) + last_mut + ('fresh-from-constructor', arg))
             for b in stale_caches(g):
                 if len(oracle) < 3:
-                    what = arg if what == 'r' else arg[0]
+                    what = arg if what in ('r', 'c') else arg[0]
                     oracle.append(f'{cls} step {i}: memo: after {what}: {b} (after {last_mut[0]} -> {last_mut[1]})'
                                   if last_mut else f'{cls} step {i}: memo: after {what}: {b} (no mutator yet)')
         if strict:
@@ -575,7 +681,7 @@ class Lane(LaneBase):
             line = ' '.join(['cache', 'run'] + toks)
             impl_reply = ' '.join(expected) if expected else '.'
             try:
-                mocc = self._model_occupancy(toks) if expected else []
+                mocc = None if constructed else (self._model_occupancy(toks) if expected else [])
             except Exception:  # noqa: BLE001
                 mocc = None
             if mocc is None or len(mocc) != len(occs):
@@ -586,7 +692,7 @@ class Lane(LaneBase):
                 more = any(a == '1' and b == '0' for o, m in zip(occs, mocc) for a, b in zip(o, m))
                 tags.add('occupancy:code-keeps-a-cache-the-model-resets' if more else
                          'occupancy:code-resets-or-skips-a-cache-the-model-keeps')
-        if case.get('family') == 'triple':
+        if case.get('family') in ('triple', 'constructed'):
             key = hashlib.sha1(json.dumps(sorted(set(keys))).encode()).hexdigest()
         else:
             key = hashlib.sha1(impl_reply.encode()).hexdigest()
@@ -619,7 +725,7 @@ class Lane(LaneBase):
 
     def describe(self, case):
         return {'cls': case['cls'], 'family': case.get('family'),
-                'steps': [s[1] if s[0] == 'r' else s[1][0] for s in case['steps']][:40]}
+                'steps': [s[1] if s[0] in ('r', 'c') else s[1][0] for s in case['steps']][:40]}
 
     def source_obligations(self):
         from harness.srcgen import c04_table
